@@ -7,6 +7,7 @@ import (
 	"net/netip"
 	"os"
 	"path/filepath"
+	"slices"
 	"strings"
 	"time"
 
@@ -28,9 +29,12 @@ import (
 // the simulated origin.
 
 type requester struct {
-	name string
-	msgs *dnsmsg.Constructor
-	conf *filter.ConfigClient
+	// client is the device name the requester is known by to the custom
+	// rules of its profile.
+	client string
+	name   string
+	msgs   *dnsmsg.Constructor
+	conf   *filter.ConfigClient
 }
 
 func mkConstructor(mode dnsmsg.BlockingMode, ttl time.Duration) *dnsmsg.Constructor {
@@ -175,12 +179,13 @@ func (w *c12World) refresh(first bool, which string) {
 func (w *c12World) ask(st *filterstorage.Default, rq *requester, host string, qt uint16) string {
 	f := st.ForConfig(context.Background(), rq.conf)
 	req := &filter.Request{
-		DNS:      (&dns.Msg{}).SetQuestion(dns.Fqdn(host), qt),
-		Messages: rq.msgs,
-		RemoteIP: netip.MustParseAddr("203.0.113.1"),
-		Host:     host,
-		QType:    qt,
-		QClass:   dns.ClassINET,
+		DNS:        (&dns.Msg{}).SetQuestion(dns.Fqdn(host), qt),
+		Messages:   rq.msgs,
+		RemoteIP:   netip.MustParseAddr("203.0.113.1"),
+		ClientName: rq.client,
+		Host:       host,
+		QType:      qt,
+		QClass:     dns.ClassINET,
 	}
 	req.DNS.Id = 4711
 	r, err := f.FilterRequest(context.Background(), req)
@@ -213,7 +218,7 @@ func genRequesters(t *kernel.Tape) (rs []*requester) {
 	}
 	n := t.Range(2, 4, "requesters")
 	for i := 0; i < n; i++ {
-		rq := &requester{name: fmt.Sprintf("rq%d", i)}
+		rq := &requester{name: fmt.Sprintf("rq%d", i), client: fmt.Sprintf("devrq%d", i)}
 		rq.msgs = mkConstructor(kernel.Pick(t, modes, "mode"), kernel.Pick(t, []time.Duration{10 * time.Second, 300 * time.Second}, "ttl"))
 		var ids []filter.ID
 		for k := 0; k < 2; k++ {
@@ -240,12 +245,51 @@ func genRequesters(t *kernel.Tape) (rs []*requester) {
 		}
 		if t.Chance(1, 2, "custom") {
 			rq.conf.Custom.Enabled = true
-			rq.conf.Custom.Rules = []filter.RuleText{"||custom-" + filter.RuleText(rq.name) + ".test^", "@@||always.shared.test^"}
+			rq.conf.Custom.Rules = []filter.RuleText{"||custom-" + filter.RuleText(rq.name) + ".test^", "@@||always.shared.test^", byClientRule(rq)}
 		}
 		rs = append(rs, rq)
 	}
+	if t.Chance(1, 2, "two-devices-of-one-profile") {
+		// The second requester is another device of the first one's profile:
+		// same custom rules, one of them for the first device only.
+		rs[1].conf.Custom = rs[0].conf.Custom
+	}
 
 	return rs
+}
+
+// byClientHost is a host that custom rules block for one device of a profile
+// only; no list knows it.
+const byClientHost = "by-client.test"
+
+func byClientRule(owner *requester) filter.RuleText {
+	return filter.RuleText("||" + byClientHost + "^$client=" + owner.client)
+}
+
+// byClientVerdict is what rq must get for byClientHost: blocked by the custom
+// rule of its profile that names it, nothing otherwise.
+func byClientVerdict(rq *requester) (blocked bool) {
+	c := rq.conf.Custom
+	if c == nil || !c.Enabled {
+		return false
+	}
+
+	return slices.Contains(c.Rules, byClientRule(rq))
+}
+
+// judgeByClient checks a verdict for byClientHost against byClientVerdict.
+func judgeByClient(s *kernel.Sim, prop string, rq *requester, host string, qt uint16, got string) (ok bool) {
+	if host != byClientHost || (qt != dns.TypeA && qt != dns.TypeAAAA) {
+		return true
+	}
+	want := byClientVerdict(rq)
+	if strings.HasPrefix(got, "blocked list=custom") == want && (want || got == "none") {
+		return true
+	}
+	s.Failf(prop+"/custom-rule-of-another-device", "a custom rule for one device of a profile decided the request of another (or not its own)",
+		"%s (device %s, custom rules %v) asks %s/%d: %s", rq.name, rq.client, rq.conf.Custom.Rules, host, qt, got)
+
+	return false
 }
 
 func genHost(t *kernel.Tape, ver int, rs []*requester) (host string) {
@@ -253,7 +297,9 @@ func genHost(t *kernel.Tape, ver int, rs []*requester) (host string) {
 	for _, id := range hashIDs {
 		tags = append(tags, hashTag(id))
 	}
-	switch t.Choose(7, "host-kind") {
+	switch t.Choose(8, "host-kind") {
+	case 7:
+		return byClientHost
 	case 0, 1:
 		v := ver
 		if t.Chance(1, 3, "old-version-host") && ver > 1 {
@@ -378,6 +424,9 @@ func runC12For(s *kernel.Sim, prop, cfg string) {
 				filter.RuleText(fmt.Sprintf("||custom-%s-%d.test^", rq.name, i)),
 				"||harmless.example^",
 			}
+			if t.Chance(2, 3, "custom-keeps-device-rule") {
+				rq.conf.Custom.Rules = append(rq.conf.Custom.Rules, byClientRule(rq))
+			}
 			if t.Chance(1, 2, "custom-drops-old") {
 				rq.conf.Custom.Rules = append(rq.conf.Custom.Rules, "||custom-"+filter.RuleText(rq.name)+".test^")
 			}
@@ -402,6 +451,9 @@ func runC12For(s *kernel.Sim, prop, cfg string) {
 		s.Logf("step %d: %s asks %s/%d -> %s", i, rq.name, host, qt, clip(ra))
 		if ra != "none" {
 			s.MarkNontrivial()
+		}
+		if !judgeByClient(s, "C12", rq, host, qt, ra) {
+			return
 		}
 		if ra != rb {
 			kind := "verdict differs with result caches enabled"
